@@ -429,15 +429,24 @@ def uboundRemoved (args : List UArg) (calls : List ICall) : List Nat :=
 
 def inRanges (rs : List (Nat × Nat)) (i : Nat) : Bool := rs.any fun r => r.1 ≤ i && i ≤ r.2
 
-/-- the lines of reported nodes are fixed as the specification says, every other line is copied -/
-def fixLines (rs : List (Nat × Nat)) : Nat → List Line → List Line
+/-- the lines selected by `p` are fixed as the specification says, every other line is copied -/
+def fixLines (p : Nat → Bool) : Nat → List Line → List Line
   | _, [] => []
-  | i, l :: ls => (if inRanges rs i then specFix .code l else l) :: fixLines rs (i + 1) ls
+  | i, l :: ls => (if p i then specFix .code l else l) :: fixLines p (i + 1) ls
+
+def Node.range (n : Node) : Nat × Nat := (n.line0, n.line0 + (n.src.filter (· == '\n')).length)
 
 /-- line ranges of the nodes that carry a report -/
 def reportedRanges (nodes : List Node) (reports : List Report) : List (Nat × Nat) :=
-  (nodes.filter fun n => reports.any (·.line == n.line0)).map fun n =>
-    (n.line0, n.line0 + (n.src.filter (· == '\n')).length)
+  (nodes.filter fun n => reports.any (·.line == n.line0)).map Node.range
+
+def strictlyInside (q r : Nat × Nat) : Bool := (r.1 < q.1 && q.2 ≤ r.2) || (r.1 ≤ q.1 && q.2 < r.2)
+
+/-- the lines the backend regenerates: lines of a reported node that do not belong to a nested node with comparisons of
+its own (body statements and ELSE IF branches keep their `Source` and are copied) -/
+def rewritten (nodes : List Node) (reports : List Report) (i : Nat) : Bool :=
+  (reportedRanges nodes reports).any fun r =>
+    inRanges [r] i && !(nodes.any fun m => strictlyInside m.range r && inRanges [m.range] i)
 
 /-- layout-free reading of a text: code without blanks and `&` in lower case, literals verbatim, comments dropped
 (their `!` kept) -/
@@ -459,7 +468,7 @@ def splitNl : Line → Line → List Line
   | c :: cs, cur => if c = '\n' then cur.reverse :: splitNl cs [] else splitNl cs (c :: cur)
 
 def fixedSquash (text : Line) (nodes : List Node) (reports : List Report) : Line :=
-  squash (toks .code (joinLines (fixLines (reportedRanges nodes reports) 1 (splitNl text []))))
+  squash (toks .code (joinLines (fixLines (rewritten nodes reports) 1 (splitNl text []))))
 
 /-! ## decidable known-finding classes (mirrored in `harness/props/c43.py`) -/
 
@@ -553,7 +562,7 @@ def KnownEnclosingDo (text : Line) (rs : List (Nat × Nat)) : Bool := unreported
 
 /-- `fix-nested-report-skipped`: a reported node lies inside another reported node (ELSE IF branch, body statement) -/
 def KnownNestedReport (rs : List (Nat × Nat)) : Bool :=
-  rs.any fun r => rs.any fun q => (q.1 < r.1 && r.2 ≤ q.2) || (q.1 ≤ r.1 && r.2 < q.2)
+  rs.any fun r => rs.any fun q => strictlyInside r q
 
 /-- `fix-literal-requoted`: a reported node contains a `"…"` literal -/
 def KnownDoubleQuote (nodes : List Node) (reports : List Report) : Bool :=
